@@ -48,9 +48,12 @@ class Rec17(H.Recorder):
         def treat(md):
             out = inner(md)
             import tomli
-            with open("restart.toml", "rb") as f:
-                c = tomli.load(f)["current"]
-            rec.after.append((c["cstep"], len(c["locked"])))
+            try:
+                with open("restart.toml", "rb") as f:
+                    c = tomli.load(f)["current"]
+                rec.after.append((c["cstep"], len(c["locked"])))
+            except (FileNotFoundError, KeyError, tomli.TOMLDecodeError):
+                rec.after.append((-1, -1))          # no (readable) restart file after a completed move
             return out
 
         state.treat_output = treat
@@ -58,8 +61,11 @@ class Rec17(H.Recorder):
 
 def read_restart(wd):
     import tomli
-    with open(os.path.join(wd, "restart.toml"), "rb") as f:
-        c = tomli.load(f)["current"]
+    try:
+        with open(os.path.join(wd, "restart.toml"), "rb") as f:
+            c = tomli.load(f)["current"]
+    except (FileNotFoundError, KeyError, tomli.TOMLDecodeError):
+        return -1, []
     return c["cstep"], [tuple(map(int, x[1])) for x in c["locked"]]
 
 
@@ -316,8 +322,15 @@ def run(ctx):
                 probs.append(f"restart.toml holds {seg['restart_locked']} locked jobs, model {nl}")
             if [a[0] for a in seg["after"]] != [seg["c0"] + i + 1 for i in range(len(seg["after"]))]:
                 probs.append(f"restart.toml cstep after each completion {[a[0] for a in seg['after']]} is not start + number of completed moves")
-        # the property itself on a finished segment
+        # the property itself: the step counter in the restart file equals the number of completed moves
+        # (after every completion, in stopped and in finished segments), ...
         oracle = []
+        want_after = [seg["c0"] + i + 1 for i in range(len(seg["after"]))]
+        if [a[0] for a in seg["after"]] != want_after:
+            got_after = ["no restart.toml" if a[0] == -1 else a[0] for a in seg["after"]]
+            oracle.append(f"the step counter in restart.toml after each completed move is {got_after}, the number of completed moves is {want_after} "
+                          f"(start {seg['c0']}, steps {seg['T']}, {W} workers)")
+        # ... and on a finished segment
         if seg["status"] == "done":
             D = seg["T"] - seg["c0"]
             if len(seg["completed"]) != D or seg["cstep"] != seg["T"]:
